@@ -185,9 +185,6 @@ Print Assumptions C14_reverse_loops.
 Theorem C14_known_findings_refuted : forallb refutes refutation_witnesses = true.
 Proof. exact all_refuted. Qed.
 Print Assumptions C14_known_findings_refuted.
-Theorem C14_test_not_refuted : refutes w_member_test_not = true.
-Proof. exact test_not_refuted. Qed.
-Print Assumptions C14_test_not_refuted.
 Theorem C14_if_not_missing_refuted : refutes w_remove_if_not = true /\ refutes w_find_if_not = true /\
   m_call w_remove_if_not = Some (RErr EUndefined) /\ s_call w_remove_if_not = Some (RSeq [0]) /\ s_call w_find_if_not = Some (RElt 1).
 Proof. exact if_not_missing_refuted. Qed.
